@@ -145,3 +145,83 @@ def run(chk):
                        family='failure-diagnostic')
     if nfail == 0:
         chk.record('run:diagnostic', 'gap', 'no path with a non-zero status explored')
+    stdout_discipline(chk)
+
+
+# ---------------------------------------------------------------------------- stdout carries only the physics output
+
+ALLOWED_STDOUT = ('print_usage', 'get_cmd_line_options', 'print_error', 'Minimal_writer', 'Detailed_writer', 'SLHA_writer',
+                  'print_amu', 'main')
+
+
+def cout_census():
+    """functions (demangled) of the library and of gm2calc.cpp whose IR refers to std::cout / stdout"""
+    import re
+    files = dict(build.library_ir())
+    files['src/gm2calc.cpp (harness h_cli)'] = harness_ir_path('h_cli')
+    found = []
+    for src, ll in sorted(files.items()):
+        cur = None
+        for ln in open(ll):
+            if ln.startswith('define '):
+                m = re.search(r'@("?)([\w.$]+)\1\(', ln)
+                cur = m.group(2) if m else None
+            elif ln.startswith('}'):
+                cur = None
+            elif cur and ('@_ZSt4cout' in ln or '@stdout' in ln or '@printf(' in ln or '@puts(' in ln or '@putchar(' in ln):
+                found.append((os.path.relpath(src, REPO) if os.path.isabs(src) else src, cur))
+                cur = None
+    names = sorted(set(f for _, f in found))
+    dem = subprocess.run(['c++filt'], input='\n'.join(names), capture_output=True, text=True).stdout.split('\n')
+    dm = dict(zip(names, dem))
+    return [(s, f, dm.get(f, f)) for s, f in found]
+
+
+def native_stdout_probe():
+    """real program: stdout must not depend on GM2CalcConfig[4] (verbose output) for any input type / output format"""
+    exe = build.build_cli()
+    bad = []
+    n = 0
+    for typ, fn in (('gm2calc', 'example.gm2'), ('slha', 'example.slha'), ('thdm', 'example.thdm')):
+        src = open(os.path.join(REPO, 'input', fn)).read()
+        for fmt in (0, 1, 4):
+            outs = []
+            for verb in (0, 1):
+                text = src + 'Block GM2CalcConfig\n     0     %d\n     4     %d\n' % (fmt, verb)
+                r = subprocess.run([exe, '--%s-input-file=-' % typ], input=text.encode(), capture_output=True, timeout=120)
+                n += 1
+                outs.append(r.stdout)
+            if outs[0] != outs[1]:
+                bad.append('%s, output format %d: stdout has %d lines without and %d lines with verbose output' % (
+                    fn, fmt, outs[0].count(b'\n'), outs[1].count(b'\n')))
+    return bad, n
+
+
+def stdout_discipline(chk):
+    """IR census + run() exploration: stream insertions outside the writers do not target std::cout"""
+    chk.functions.add('census of std::cout references (library + gm2calc.cpp)')
+    try:
+        cen = cout_census()
+    except Exception as e:      # noqa
+        chk.record('stdout:census', 'gap', 'census failed: %s' % e)
+        chk.not_covered.append('stdout discipline (census failed)')
+        return
+    offenders = [(s, f, d) for s, f, d in cen if not any(a in d for a in ALLOWED_STDOUT)]
+    chk.extra['stdout_writers'] = sorted(set(d[:90] for _, _, d in cen))
+    if not offenders:
+        chk.record('stdout:census', 'discharged', family='stdout-discipline',
+                   sample={'obligation': 'only the output producers of gm2calc.cpp (usage, version, writers, SLHA error block) refer to '
+                           'std::cout; no library function does', 'functions_with_cout': len(cen)})
+        chk.formulas.add('stdout:census')
+        return
+    bad, n = native_stdout_probe()
+    chk.traces_validated += n
+    what = '; '.join('%s in %s' % (d[:80], s) for s, f, d in offenders[:4])
+    if bad:
+        chk.violation('stdout:census', 'C14:stdout:non-output-code-writes-to-stdout',
+                      'code other than the output producers writes to std::cout (%s); real program: %s' % (what, '; '.join(bad[:3])),
+                      '#!/bin/sh\ncd %s && exec python3-vt -m props.replay_c14 stdout\n' % VERIF)
+    else:
+        chk.record('stdout:census', 'gap', 'std::cout referenced outside the known output producers (%s) but the stdout of the real '
+                   'program does not depend on verbose output' % what, family='stdout-discipline')
+        chk.not_covered.append('stdout discipline: new std::cout reference not classified (%s)' % what[:120])
